@@ -1076,6 +1076,12 @@ pub fn generate(seed: u64, proto3: bool, nmsgs: usize) -> PSchema {
             num += 1;
             fields.push(PField { num, name: format!("f{}", num), kind: FKind::Plain(l, t), oneof: Some(0) });
         }
+        // maps with ENUM values (proto2: the first enumerator of a top-level enum is never 0,
+        // so "value equal to the default" and "value 0" are different entries)
+        for (k, e) in [(PTy::Int32, 0usize), (PTy::String, 1usize)] {
+            num += 1;
+            fields.push(PField { num, name: format!("f{}", num), kind: FKind::Map(k, PTy::Enum(e)), oneof: None });
+        }
         s.msgs.push(PMsg { name: "A0".into(), parent: None, fields, oneofs: vec!["o1".into()] });
         // directed: a NESTED message with the simple name of that top-level message; it refers to
         // the top-level one (type names are rendered fully qualified), and its parent holds one
@@ -1094,6 +1100,30 @@ pub fn generate(seed: u64, proto3: bool, nmsgs: usize) -> PSchema {
         if !s.msgs[0].fields.iter().any(|f| f.num == 18999) {
             s.msgs[0].fields.push(PField { num: 18999, name: "nested_a0".into(), kind: FKind::Plain(l, PTy::Msg(nested)), oneof: None });
         }
+        // directed: SMALL messages whose elements own heap memory (string, bytes, repeated
+        // string), as repeated element, singular member and map value of a holder: the fault
+        // checks (C10, C19) only take encodings up to a few hundred bytes, which A0 exceeds
+        let h0 = s.msgs.len();
+        s.msgs.push(PMsg {
+            name: "H0".into(),
+            parent: None,
+            fields: vec![
+                PField { num: 1, name: "s".into(), kind: FKind::Plain(l, PTy::String), oneof: None },
+                PField { num: 2, name: "b".into(), kind: FKind::Plain(l, PTy::Bytes), oneof: None },
+                PField { num: 3, name: "rs".into(), kind: FKind::Plain(Label::Repeated, PTy::String), oneof: None },
+            ],
+            oneofs: vec![],
+        });
+        s.msgs.push(PMsg {
+            name: "H1".into(),
+            parent: None,
+            fields: vec![
+                PField { num: 1, name: "items".into(), kind: FKind::Plain(Label::Repeated, PTy::Msg(h0)), oneof: None },
+                PField { num: 2, name: "one".into(), kind: FKind::Plain(l, PTy::Msg(h0)), oneof: None },
+                PField { num: 3, name: "m".into(), kind: FKind::Map(PTy::Int32, PTy::Msg(h0)), oneof: None },
+            ],
+            oneofs: vec![],
+        });
     }
     // no message is recursive THROUGH a oneof member (recorded C14 finding, carried by a
     // directed document): a member whose message type leads back to the message that owns
